@@ -1,10 +1,11 @@
 SPECIFICATION TraceSpec
 CONSTANTS
-  Callers = {"c1", "c2", "c3"}
-  Cancellers = {"k1", "k2"}
+  Callers = {"c1", "c2", "c3", "i1", "i2"}
+  Cancellers = {"k1", "k2", "j1", "p1"}
   Periodic = FALSE
   DeleteByName = FALSE
   ClaimIgnoresCancel = FALSE
+  PrefixCancellers = {"p1"}
   DropOnClaim = FALSE
   MaxRuns = 1000
 INVARIANTS AtMostOnce NoOverlap NoPanic NoLostRun NotDropped CancelBranchNoRun NameReusable NameSlotUnique SuccessorReachable
